@@ -34,7 +34,7 @@ man = dict(
         enable="RUSTFLAGS=\"--cfg similar_verif\" cargo build (the harness crate /verif/harness depends on /repo by path)",
         baseline_off_cmd="cd /repo && cargo test --workspace --no-fail-fast --offline",
         source_commits=["593dbecb5ab917da38266ea4527fe5dba471fa5f", "0491e7fbc8ff87c7970e31670056285c28b2eddf",
-                        "2fbbe40fbeff341fa4bca2ccc28dbdc813f83e30", "e6f991dba11e39e8d3ce847e06c649d1346813d3"],
+                        "2fbbe40fbeff341fa4bca2ccc28dbdc813f83e30", "e6f991dba11e39e8d3ce847e06c649d1346813d3", "32af94f0698c5ebd41508108136db94eff82822a"],
         add_only=True,
     ),
     engines=[dict(name="coq-model+correspondence", path="/verif/coq, /verif/ocaml, /verif/harness, /verif/tools",
